@@ -131,6 +131,13 @@ def step (_ : Unit) (ws : List String) : Unit × String :=
       | some false => "noverify"
       | none => "missing"
     | _, _ => "bad-op"
+  | ["untouched", cfg, ehv, ca, cert, key, spare] =>                   -- C20_caller_config_untouched_partial (+ cex)
+    match parseCfg cfg, parseBool ehv, parseFileSt ca, parseFileSt cert, parseFileSt key, parseBool spare with
+    | some cfg, some ehv, some ca, some cert, some key, some spare =>
+      let o : SslOpts := { cfg := cfg, enableHostVerification := ehv, ca := ca, cert := cert, key := key }
+      let l := (if callerPoolMutated o then ["pool"] else []) ++ (if callerBackingWritten o spare then ["backing"] else [])
+      if l.isEmpty then "untouched" else "MODIFIED:" ++ "+".intercalate l
+    | _, _, _, _, _, _ => "bad-op"
   | ["badfile", ca, cert, key] => match parseFileSt ca, parseFileSt cert, parseFileSt key with   -- C20_bad_files_error
     | some ca, some cert, some key =>
       match setupTLSConfig { cfg := none, enableHostVerification := true, ca := ca, cert := cert, key := key } with
